@@ -44,7 +44,7 @@ TARGETS = [('path', 4), ('existing', 4), ('handle', 2), ('dirty_handle', 2), ('b
 
 def gen_plan(rng, tier, index):
     kind = rng.wpick([('rdms', 4), ('data', 3), ('result', 2)])
-    plan = {'kind': kind, 'decorate': rng.subset(['unicode', 'naninf', 'matrix', 'nomeasure', 'floatdesc', 'emptystr', 'ragged', 'emptyarr', 'bigendian', 'nonestr', 'blanks'], 0.0, 0.8),
+    plan = {'kind': kind, 'decorate': rng.subset(['unicode', 'naninf', 'matrix', 'nomeasure', 'floatdesc', 'emptystr', 'ragged', 'emptyarr', 'bigendian', 'nonestr', 'blanks', 'longdouble'], 0.0, 0.8),
             'dec_seed': rng.randrange(10 ** 6), 'big': rng.chance(0.03)}
     if kind == 'rdms':
         plan['family'] = gen_family(rng, n_cond=(2, 14) if rng.chance(0.4) else (2, 8), n_rdm=(1, 6), mixed_ok=False)
@@ -392,6 +392,10 @@ def _decorate(obj, plan, kind):
         o.descriptors['scalar0'] = 0                          # ... and so are zero, False and an all-zero vector
         o.descriptors['flag'] = False
         o.descriptors['zeros'] = np.zeros(3)
+    if 'longdouble' in dec and np.finfo(np.longdouble).nmant > 52:
+        # extended-precision arrays keep their extra bits (where the platform has them)
+        per_col['ld'] = np.array([np.longdouble(1) + np.longdouble(2) ** -60 * (i + 1) for i in range(n_col)], dtype=np.longdouble)
+        o.descriptors['ldmat'] = np.array([[np.longdouble(1) / 3, np.longdouble(2) ** -70], [np.longdouble(3), np.longdouble(1) + np.longdouble(2) ** -61]], dtype=np.longdouble)
     if 'ragged' in dec:
         # per-item arrays of different lengths: cannot form one numpy array, stored element by element
         per_col['ragged'] = [np.arange(1 + (i * 7) % 3) * 1.5 + i for i in range(n_col)]
